@@ -7,12 +7,12 @@ RULE = "A case is one generated program: an entity diagram (1-3 entities; auto/i
 ASSUMPTIONS = ['live SQLite (in-memory) with foreign keys enforced immediately',
                'reference store vlib/refstore.py written from the documented relationship/cascade/key semantics (DESIGN.md section 7a)',
                'table and column names are taken from the mapping metadata (names only)']
-SHARDS = {'quick': 4, 'thorough': 16}
-MIN_EVALS = {'quick': 400, 'thorough': 5000}
+SHARDS = {'quick': 8, 'thorough': 16}
+MIN_EVALS = {'quick': 2000, 'thorough': 5000}
 PROPS = {'C09'}
 WEIGHTS = {}
 
-run = sesscheck.make_run(ID, PROPS, 500, 6000, weights=WEIGHTS,
+run = sesscheck.make_run(ID, PROPS, 700, 6000, weights=WEIGHTS,
                          nontrivial=lambda program, stats: stats.get('commits', 0) > 1 and (stats.get('op:del', 0) + stats.get('op:crem', 0) + stats.get('op:set', 0) + stats.get('op:setm', 0)) > 0)
 replay = sesscheck.make_replay(ID, PROPS)
 
